@@ -7,6 +7,7 @@ use std::panic::{catch_unwind, AssertUnwindSafe};
 
 mod cases;
 mod json;
+mod tess;
 
 fn main() {
     let args: Vec<String> = std::env::args().collect();
